@@ -40,7 +40,33 @@ func (c *Case) ID() string {
 
 var ctxNames = []string{"A", "B", "FAIL", "nil"}
 
+// context functions with an implicit *ExecutionContext and 1..7 explicit arguments
+func cf1(ctx *pongo2.ExecutionContext, a int) string { return fmt.Sprint("cf1:", a) }
+func cf3(ctx *pongo2.ExecutionContext, a int, b string, c int) string {
+	return fmt.Sprint("cf3:", a, b, c)
+}
+func cf5(ctx *pongo2.ExecutionContext, a, b, c, d, e int) string {
+	return fmt.Sprint("cf5:", a, b, c, d, e)
+}
+func cf7(ctx *pongo2.ExecutionContext, a, b, c, d, e, f, g int) string {
+	return fmt.Sprint("cf7:", a, b, c, d, e, f, g)
+}
+func cfv(ctx *pongo2.ExecutionContext, xs ...int) string { return fmt.Sprint("cfv:", xs) }
+
+func withFuncs(c pongo2.Context) pongo2.Context {
+	c["cf1"], c["cf3"], c["cf5"], c["cf7"], c["cfv"] = cf1, cf3, cf5, cf7, cfv
+	c["f2"] = func(a, b int) int { return a + b }
+	return c
+}
+
 func mkCtx(i int) pongo2.Context {
+	if i < 3 {
+		return withFuncs(mkCtxData(i))
+	}
+	return nil
+}
+
+func mkCtxData(i int) pongo2.Context {
 	boom := func() (string, error) { return "", errors.New("injected failure") }
 	switch i {
 	case 0:
@@ -187,6 +213,7 @@ func programs() []prog {
 		{name: "verbatim", src: `{% verbatim %}{{ n }}{% endverbatim %}`},
 		{name: "expr", src: `{{ n + 1 }}{{ s + "x" }}{{ n in l }}{{ not flag }}{{ (n * 2) ^ 2 }}{{ [n, s]|join:"," }}`},
 		{name: "filters", src: `{{ s|center:5 }}{{ l|join:"-" }}{{ l|slice:"1:" }}{{ s|default:"d"|capfirst }}{{ n|add:l.0 }}`},
+		{name: "calls", src: `{{ cf1(n) }}{{ cf3(n, s, 3) }}{{ cf5(1, 2, 3, 4, n) }}{{ cf7(1, 2, 3, 4, 5, 6, n) }}{{ cfv(1, n, 3) }}{{ f2(n, 2) }}{{ cf3(1, "x", n) }}`},
 		{name: "whitespace", src: "\n\nX\n{% if flag %}\nY\n{% endif %}\n  {% set z = 1 %}  \nZ\n\t{% for i in l %}\n i{{ i }} \n\t{% endfor %}\n"},
 		{name: "whitespace-dash", src: " a \n{%- if flag -%}\n b \n{%- endif %}\n{{- n -}}\n c "},
 	}
